@@ -181,9 +181,199 @@ def rule_arith(ctx, db):
     ctx.floor("R3", "checked subtractions / open-ended indexes in scope", n, 25)
 
 
+def _family(db, root_rx):
+    rx = re.compile(root_rx)
+    return [f for f in db.fns.values() if rx.search(db.root_fn(f).name)]
+
+
+def _dep_calls(f, op):
+    p = op_place(op)
+    if p is None:
+        return set(), [], []
+    return data_deps(f, p["l"])
+
+
+def _arg_depends_on_call(f, t, idx, pat):
+    if idx >= len(t.get("args", [])):
+        return False
+    locs, cr, places = _dep_calls(f, t["args"][idx])
+    return any(call_matches(ct, pat) for _, ct in cr)
+
+
+def _arg_depends_on_field(f, t, idx, field):
+    locs, cr, places = _dep_calls(f, t["args"][idx])
+    return any(any(isinstance(e, list) and e[0] == "f" and e[2] == field for e in pl["p"]) for pl in places)
+
+
+def _adds(f):
+    for bi, si, st in f.stmts():
+        r = st.get("r", {})
+        if r.get("k") == "bin" and r.get("x", "").startswith("Add"):
+            yield bi, st
+
+
+def _subs(f):
+    for bi, si, st in f.stmts():
+        r = st.get("r", {})
+        if r.get("k") == "bin" and r.get("x", "").startswith("Sub"):
+            yield bi, st
+
+
+def rule_cursors(ctx, db):
+    """R5: position / progress / limit bookkeeping of Cursor, BufReader, BufWriter, Take, Buffer and `&[u8]`."""
+    from ..util import guarded_by_bool
+    R = ctx.rule
+    R("R5", "same-value", "cursors move by what was transferred: Cursor reads/writes at position() and then sets position()+n; "
+      "BufReader consumes exactly the count it handed out, refills only an exhausted buffer and appends at buf_len; BufWriter "
+      "flushes before it appends at buf_len; Take clamps the request by its limit, stops at 0 and subtracts the transferred "
+      "count; Buffer::advance re-slices at begin()+amount; `&[u8]` re-slices itself by the copied count")
+    if not any(f.id.startswith("compio_io::") for f in db.fns.values()):
+        return
+    POLL = r"core::future::future::Future::poll$"
+    # ---- Cursor
+    cur = [f for f in db.fns.values() if f.kind == "coroutine" and re.match(r"<std::io::cursor::Cursor<A> as compio_io::(read::AsyncRead|write::AsyncWrite)>::(read|read_vectored|write|write_vectored)::", f.name)]
+    ctx.floor("R5", "Cursor adapters", len(cur), 4)
+    for f in cur:
+        name = db.root_fn(f).name
+        at = calls(f, r"compio_io::(read::AsyncReadAt|write::AsyncWriteAt)::\w+_at$")
+        sp = calls(f, r"Cursor::<T>::set_position$")
+        ok_at = bool(at) and all(_arg_depends_on_call(f, t, len(t["args"]) - 1, r"Cursor::<T>::position$") for _, t in at)
+        ctx.ob("R5", "cursor-io-at-position:" + name, ok_at, "the positional call gets position() as its offset", f)
+        ok_sp = False
+        for bb, t in sp:
+            locs, cr, places = _dep_calls(f, t["args"][1])
+            has_pos = any(call_matches(ct, r"Cursor::<T>::position$") for _, ct in cr)
+            has_res = any(call_matches(ct, POLL) for _, ct in cr)
+            has_add = any(st["a"]["l"] in locs for _, st in _adds(f))
+            if has_pos and has_res and has_add and at and all(f.cfg.dominates(ab, bb) for ab, _ in at):
+                ok_sp = True
+        ctx.ob("R5", "cursor-advances-by-count:" + name, ok_sp,
+               "after the positional call completed the position becomes position() + n (n = what the call reported)", f)
+    # ---- BufReader::read / read_vectored : consume(n) with n = the count handed to the caller
+    for m in ("read", "read_vectored"):
+        fam = _family(db, r"^<compio_io::read::buf::BufReader<R> as compio_io::read::AsyncRead>::%s$" % m)
+        ok = False
+        for f in fam:
+            if f.kind != "closure":
+                continue
+            for bb, t in calls(f, r"AsyncBufRead::consume$|BufReader<R>.*::consume$"):
+                p = op_place(t["args"][1])
+                if p is not None and 2 in data_deps(f, p["l"])[0]:
+                    ok = True
+        if not fam:
+            ctx.missing("R5", "BufReader::" + m)
+        ctx.ob("R5", "bufreader-consumes-handed-out-count:" + m, ok,
+               "the number of bytes copied to the caller (the closure's argument) is what is consumed from the buffer", fam[0] if fam else None)
+    # ---- BufReader::fill_buf
+    fam = _family(db, r"^<compio_io::read::buf::BufReader<R> as compio_io::read::buf::AsyncBufRead>::fill_buf$")
+    co = [f for f in fam if f.kind == "coroutine"]
+    if not co:
+        ctx.missing("R5", "BufReader::fill_buf")
+    for f in co:
+        rs = calls(f, r"Buffer::<B>::reset$")
+        wi = calls(f, r"Buffer::<B>::with$")
+        ctx.ob("R5", "bufreader-reset-only-when-all-done", bool(rs) and all(guarded_by_bool(f, bb, r"Buffer::<B>::all_done$", True, db=db) is not None for bb, _ in rs),
+               "the buffer is reset only when every buffered byte was consumed (unread bytes are never discarded)", f)
+        ctx.ob("R5", "bufreader-refills-only-when-empty", bool(wi) and all(guarded_by_bool(f, bb, r"Buffer::<B>::need_fill$", True, db=db) is not None for bb, _ in wi),
+               "the inner reader is asked only when the buffer is empty", f)
+    ok = False
+    for f in fam:
+        for bb, t in calls(f, r"IoBufExt::slice$"):
+            if _arg_depends_on_call(f, t, 1, r"buf_len$"):
+                ok = True
+    ctx.ob("R5", "bufreader-fills-at-buf_len", ok, "the refill reads into the buffer sliced from its current length (nothing buffered is overwritten)", co[0] if co else None)
+    # ---- BufWriter::write / write_vectored
+    for m in ("write", "write_vectored"):
+        fam = _family(db, r"^<compio_io::write::buf::BufWriter<W> as compio_io::write::AsyncWrite>::%s$" % m)
+        co = [f for f in fam if f.kind == "coroutine"]
+        if not co:
+            ctx.missing("R5", "BufWriter::" + m)
+            continue
+        ok = any(_arg_depends_on_call(f, t, 1, r"buf_len$") for f in fam for bb, t in calls(f, r"IoBufExt::slice$"))
+        ctx.ob("R5", "bufwriter-appends-at-buf_len:" + m, ok, "new bytes are copied behind the bytes already buffered", co[0])
+        f = co[0]
+        fl = [bb for bb, _ in calls(f, r"BufWriter::<W>::flush_if_needed$")]
+        ws = [bb for bb, _ in calls(f, r"Buffer::<B>::with_sync$")]
+        ctx.ob("R5", "bufwriter-flushes-before-append:" + m, bool(fl) and bool(ws) and all(any(f.cfg.dominates(a, b) for a in fl) for b in ws),
+               "flush_if_needed precedes the copy into the buffer", f)
+    # ---- Take
+    tr = [f for f in db.fns.values() if f.kind == "coroutine" and f.name.startswith("<compio_io::util::take::Take<R> as compio_io::read::AsyncRead>::read::")]
+    if not tr:
+        ctx.missing("R5", "Take::read")
+    for f in tr:
+        rd = calls(f, r"compio_io::read::AsyncRead::read$")
+        sl = calls(f, r"IoBufExt::slice$")
+        ok_clamp = False
+        for bb, t in sl:
+            locs, cr, places = _dep_calls(f, t["args"][1])
+            if any(call_matches(ct, arith.MIN) for _, ct in cr) and any(any(isinstance(e, list) and e[0] == "f" and e[2] == "limit" for e in pl["p"]) for pl in places) \
+                    and any(call_matches(ct, r"buf_capacity$") for _, ct in cr):
+                ok_clamp = True
+        ctx.ob("R5", "take-clamps-request", ok_clamp and bool(rd), "the buffer handed to the inner reader is sliced to min(limit, capacity)", f)
+        # limit == 0 test dominates the read
+        zero = []
+        for bi, si, st in f.stmts():
+            r = st.get("r", {})
+            if r.get("k") == "bin" and r.get("x") == "Eq" and any(str(o.get("v")) == "0" for o in r["ops"] if "k" in o):
+                for o in r["ops"]:
+                    pl = op_place(o)
+                    if pl is not None and (any(isinstance(e, list) and e[0] == "f" and e[2] == "limit" for e in pl["p"]) or
+                                           any(any(isinstance(e, list) and e[0] == "f" and e[2] == "limit" for e in q["p"]) for q in data_deps(f, pl["l"])[2])):
+                        zero.append(bi)
+        ctx.ob("R5", "take-stops-at-zero", bool(zero) and bool(rd) and all(any(f.cfg.dominates(z, bb) for z in zero) for bb, _ in rd),
+               "limit == 0 is tested before the inner reader is asked", f)
+        ok_sub = False
+        for bi, si, st in f.stmts():
+            a = st.get("a")
+            if a and any(isinstance(e, list) and e[0] == "f" and e[2] == "limit" for e in a["p"]):
+                for pl in rvalue_places(st["r"]):
+                    locs, cr, places = data_deps(f, pl["l"])
+                    if any(s2["a"]["l"] in locs | {pl["l"]} for _, s2 in _subs(f)) and any(call_matches(ct, POLL) for _, ct in cr):
+                        ok_sub = True
+        ctx.ob("R5", "take-subtracts-transferred", ok_sub, "limit becomes limit - n with n the count the inner reader reported", f)
+    tf = [f for f in db.fns.values() if f.kind == "coroutine" and f.name.startswith("<compio_io::util::take::Take<R> as compio_io::read::buf::AsyncBufRead>::fill_buf::")]
+    for f in tf:
+        ok = False
+        for bb, t in calls(f, arith.MIN):
+            if any(_arg_depends_on_field(f, t, i, "limit") or (op_place(t["args"][i]) or {"p": []})["p"] and
+                   any(isinstance(e, list) and e[0] == "f" and e[2] == "limit" for e in op_place(t["args"][i])["p"]) for i in range(len(t["args"]))):
+                ok = True
+        ctx.ob("R5", "take-fill_buf-clamped-by-limit", ok, "the slice handed out is cut at min(limit, available)", f)
+    tc = [f for f in db.fns.values() if f.name == "<compio_io::util::take::Take<R> as compio_io::read::buf::AsyncBufRead>::consume"]
+    for f in tc:
+        inner = calls(f, r"compio_io::read::buf::AsyncBufRead::consume$")
+        ok = bool(inner) and all(_arg_depends_on_call(f, t, 1, arith.MIN) for _, t in inner)
+        ctx.ob("R5", "take-consume-clamped", ok, "the amount passed on to the inner reader (and subtracted) is min(limit, amount)", f)
+    # ---- Buffer::advance
+    adv = [f for f in db.fns.values() if f.name == "compio_io::buffer::Buffer::<B>::advance"]
+    if not adv:
+        ctx.missing("R5", "Buffer::advance")
+    for f in adv:
+        ok = False
+        for bb, t in calls(f, r"IoBufExt::slice$"):
+            locs, cr, places = _dep_calls(f, t["args"][1])
+            if 2 in locs and any(call_matches(ct, r"Slice::<T>::begin$") for _, ct in cr) and any(st["a"]["l"] in locs for _, st in _adds(f)):
+                ok = True
+        ctx.ob("R5", "buffer-advance-reslices-at-begin-plus-amount", ok, "advance(amount) re-slices the buffer at begin() + amount", f)
+    # ---- &[u8]::read
+    sr = [f for f in db.fns.values() if f.kind == "coroutine" and f.name.startswith("<&[u8] as compio_io::read::AsyncRead>::read::")]
+    if not sr:
+        ctx.missing("R5", "<&[u8] as AsyncRead>::read")
+    for f in sr:
+        ok = False
+        for bb, t in calls(f, arith.INDEX):
+            locs, cr, places = _dep_calls(f, t["args"][1])
+            if any(call_matches(ct, r"compio_io::util::internal::slice_to_buf$") for _, ct in cr):
+                ok = True
+        ctx.ob("R5", "slice-reader-advances-by-copied-count", ok, "`*self = &self[len..]` with len the count slice_to_buf copied", f)
+
+
 def rules_all(ctx, db):
+    from .. import forward
     rules(ctx, db)
     rule_arith(ctx, db)
+    forward.rule_io_forwarders(ctx, db, "R4", ("compio_io::",), 50)
+    rule_cursors(ctx, db)
 
 
 def check(tier):
